@@ -1,6 +1,6 @@
 /-
-  OFV.Lemmas.RTRegistry — every (class, field) for which DecodeMatchField allocates a receiver (classes OPENFLOW_BASIC and
-  NXM_1) has a well-formed value: the MatchField round trip of OFV/Props/C05.lean covers the whole registry.
+  OFV.Lemmas.RTRegistry — every (class, field) for which DecodeMatchField allocates a receiver (classes OPENFLOW_BASIC,
+  NXM_1 and EXPERIMENTER) has a well-formed value: the MatchField round trip of OFV/Props/C05.lean covers the whole registry.
 -/
 import OFV.Model.All
 import OFV.Lemmas.RTBasic
@@ -108,32 +108,38 @@ theorem nxm1_supported (ln : Nat) (hm : Bool) (x : Nat × Option V) (hx : x ∈ 
     | (cases hr
        first | exact sup_InPortField | exact sup_MplsLabelField | exact sup_IPv6FlowLabelField | exact sup_ActsetOutputField | exact sup_Uint32Message | exact sup_EthTypeField | exact sup_VlanIdField | exact sup_PortField | exact sup_TcpFlagsField | exact sup_ArpOperField | exact sup_Uint16Message | exact sup_MplsBosField | exact sup_IpProtoField | exact sup_IpDscpField | exact sup_IcmpTypeField | exact sup_IcmpCodeField | exact sup_TunnelIdField | exact sup_MetadataField | exact sup_EthDstField | exact sup_EthSrcField | exact sup_ArpXHaField | exact sup_Ipv6SrcField | exact sup_Ipv6DstField | exact sup_CTLabel | exact sup_Ipv4SrcField | exact sup_Ipv4DstField | exact sup_TunnelIpv4SrcField | exact sup_TunnelIpv4DstField | exact sup_ArpXPaField | exact sup_byteArray _ _)
 
-/-- whenever DecodeMatchField allocates a receiver for (class, field) in the two classes, a well-formed value of its
+/-- every receiver in the EXPERIMENTER table is supported -/
+theorem experimenter_supported (x : Nat × Option V) (hx : x ∈ experimenterFieldTable) (r : V) (hr : x.2 = some r) :
+    Supported r := by
+  simp only [experimenterFieldTable, List.mem_cons, List.not_mem_nil, or_false] at hx
+  rcases hx with rfl | rfl
+  · cases hr; exact sup_TcpFlagsField
+  · cases hr; exact sup_ActsetOutputField
+
+theorem decTarget_val (tab : List (Nat × Option V)) (f : Nat) (r : V)
+    (h : (match decTarget tab f with | .val r => some r | _ => none) = some r) : (f, some r) ∈ tab := by
+  unfold decTarget at h
+  split at h
+  · rename_i r' heq
+    cases h
+    split at heq
+    · rename_i r'' hl
+      cases heq
+      exact lookup_mem f _ _ hl
+    · cases heq
+    · cases heq
+  · cases h
+
+/-- whenever DecodeMatchField allocates a receiver for (class, field) in the three classes, a well-formed value of its
     kind exists: `MatchFieldWF` is satisfiable for every such field of the registry -/
 theorem fieldRecv_supported (c f ln : Nat) (hm : Bool) (r : V) (h : fieldRecv c f ln hm = some r) : Supported r := by
-  unfold fieldRecv decTarget at h
+  unfold fieldRecv at h
   split at h
+  · exact basic_supported _ (decTarget_val _ f r h) r rfl
   · split at h
-    · rename_i r' heq
-      cases h
-      split at heq
-      · rename_i r'' hl
-        cases heq
-        exact basic_supported _ (lookup_mem f _ _ hl) r rfl
-      · cases heq
-      · cases heq
-    · cases h
-  · split at h
+    · exact nxm1_supported ln hm _ (decTarget_val _ f r h) r rfl
     · split at h
-      · rename_i r' heq
-        cases h
-        split at heq
-        · rename_i r'' hl
-          cases heq
-          exact nxm1_supported ln hm _ (lookup_mem f _ _ hl) r rfl
-        · cases heq
-        · cases heq
+      · exact experimenter_supported _ (decTarget_val _ f r h) r rfl
       · cases h
-    · cases h
 
 end OFV.RT
